@@ -9,5 +9,9 @@ import (
 
 func main() {
 	name, desc := "gts", "the genome transformation subprograms command line tool"
-	os.Exit(flags.Run(name, desc, gts.Version, flags.Compile()))
+	code := flags.Run(name, desc, gts.Version, flags.Compile())
+	if code != 0 {
+		discardCreatedCache()
+	}
+	os.Exit(code)
 }
